@@ -22,6 +22,17 @@ func description(b []byte) ([]byte, error) {
 
 	lines := bytes.Split(b, []byte{'\n'})
 
+	// A line of blanks is an empty line: it neither begins the text nor takes
+	// part in the indentation.
+	for i := 0; i < len(lines); i++ {
+		if len(bytes.Trim(lines[i], " \t")) == 0 {
+			lines[i] = lines[i][:0]
+		}
+	}
+	for len(lines) > 1 && len(lines[0]) == 0 {
+		lines = lines[1:]
+	}
+
 	prefix := longestWhitespacePrefix(lines)
 	for i := 0; i < len(lines); i++ {
 		lines[i] = bytes.TrimPrefix(lines[i], prefix)
